@@ -901,3 +901,37 @@ def check_dishonest_host_full(prop, tier, repo, verif):
     res['wall_s'] = round(time.time() - t0, 1)
     res['checker_cmd'] = 'tools/hostprobe (built against the current tree)'
     return res
+
+
+def check_determinism_full(prop, tier, repo, verif):
+    t0 = time.time()
+    res = {'unit': 'bounded:determinism_full', 'engine': 'bounded run of the real assembler + processor (tools/detprobe)', 'status': 'ok',
+           'failures': [], 'undecided': [], 'bounded': True,
+           'bound': '9 programs (long span over several capacity doublings, 24 stack inputs, loop + memory + split, calls with locals, long calls, syscalls with a kernel, advice, decorated with debug / trace / emit, clk): re-run; expected-cycles hints 64 .. 8192 plus 65 / 100 / 1000, tracing on and off; debug-mode assembly and the decorator-stripped source (same hash, outputs, cycle count, full main trace); step iterator ctx / fmp / top 16 / memory against the trace and a replay of the memory chiplet rows, forward, backward, next-back-next at every clock and a pseudo-random zig-zag, on release and debug assembly; every CLK row pushes its clock. The overflow part of VmState.stack (F19) is handled by unit step_iterator'}
+    binp, err = build_tool(repo, verif, 'detprobe')
+    if binp is None:
+        res['status'] = 'undecided'
+        res['undecided'].append('detprobe does not build against the current tree: ' + err)
+        return res
+    p = subprocess.run([binp], stdout=subprocess.PIPE, stderr=subprocess.PIPE, text=True)
+    m = re.search(r'SUMMARY failing_programs=(\d+)', p.stdout)
+    if not m:
+        res['status'] = 'undecided'
+        res['undecided'].append('detprobe gave no summary (panic?): ' + (p.stdout + p.stderr)[-500:])
+        return res
+    for ln in p.stdout.split('\n'):
+        mm = re.match(r'FAILCASE (\S+) :: (.*)', ln)
+        if not mm:
+            continue
+        prog, first = mm.groups()
+        kind = re.sub(r'[^A-Za-z0-9]+', '-', re.sub(r'\(\d\)\s*', '', first.split(':')[0]))[:40].strip('-')
+        res['failures'].append({'obligation': '%s/bounded/determinism_full#%s:%s' % (prop, prog, kind), 'message': 'determinism / step iterator: program %s: %s' % (prog, first[:160]),
+                                'rendered': ln[:1800], 'origins': ['processor/src/debug.rs', 'processor/src/system/mod.rs', 'processor/src/stack/mod.rs', 'processor/src/chiplets/memory', 'assembly/src/assembler/span_builder.rs'],
+                                'failing_input': {'program': prog, 'detail': first[:900], 'cmd': '.cache/target/debug/detprobe'}})
+    if int(m.group(1)) and not res['failures']:
+        res['failures'].append({'obligation': '%s/bounded/determinism_full#fail' % prop, 'message': '%s programs fail' % m.group(1), 'rendered': p.stdout[-800:], 'origins': []})
+    if res['failures']:
+        res['status'] = 'fail'
+    res['wall_s'] = round(time.time() - t0, 1)
+    res['checker_cmd'] = 'tools/detprobe (built against the current tree)'
+    return res
